@@ -725,6 +725,9 @@ func init() {
 			{ID: "C02-next", Floor: 6, Run: c02Next, Text: "guarded-return matching of (height, previous LER) against the last certificate's state"},
 			{ID: "C02-range", Floor: 9, Run: c02LastSent, Text: "guarded-return matching of (last block, retry); build-params provenance"},
 			{ID: "C02-retry", Floor: 6, Run: c02Retry, Text: "[DOM]+[PROV] retry keeps first block; VerifyBuildParams before returning params; resend literal"},
+			{ID: "C02-recover", Floor: 8, Run: shared("C02-recover", c13Recover), Text: "(shared with C13-recover) a record rebuilt from an Agglayer header keeps the certificate's real block range"},
+			{ID: "C02-cut", Floor: 13, Run: shared("C02-cut", c17Filter), Text: "(shared with C17-filter) a cut keeps the events of its range and copies every other parameter, RetryCount included"},
+			{ID: "C02-ler", Floor: 9, Run: shared("C02-ler", c03NewLER), Text: "(shared with C03-newler) the new local exit root follows from the exits of the range"},
 			{ID: "C02-store", Floor: 10, Run: c02Store, Text: "[FIELDMAP]+[DOM] stored header fields; store only after accept; save error reported"},
 		},
 	})
